@@ -4,8 +4,10 @@ from vlib import core, drivers
 from vlib.props import c05
 
 PROP = 'C02'
-MODULES = ['PistacheModel.Props.C02']
-THEOREMS = ['Pistache.Emit.Props.' + t for t in ('request_framing', 'target_shape', 'requestBytes_eq', 'fixed_framing', 'stream_framing', 'chunked_roundtrip', 'chunked_data')]
+MODULES = ['PistacheModel.Props.C02', 'PistacheModel.Props.C02Compose']
+THEOREMS = ['Pistache.Emit.Props.' + t for t in ('request_framing', 'target_shape', 'requestBytes_eq', 'fixed_framing', 'stream_framing', 'chunked_roundtrip', 'chunked_data')] + \
+           ['Pistache.Parser.' + t for t in ('requestLine_write', 'headerLine_write', 'headersLoop_write', 'qScan_pairs')] + \
+           ['Pistache.Parser.Props.' + t for t in ('parse_written', 'request_roundtrip', 'request_roundtrip_fields', 'headerEffects_kinds', 'cookie_effects_noTyped')]
 
 hx = c05.hx; unhx = c05.unhx
 METHODS = ['Get', 'Post', 'Put', 'Delete', 'Patch', 'Head', 'Options', 'Trace', 'Connect']
